@@ -117,15 +117,19 @@ def defaultPhases : List (List Char) := [['(', 's', ')'], ['(', 'l', ')'], ['(',
 def speciesMass (phases : List (List Char)) (s : String) : Except MassErr Rat :=
   formulaMassWith Gen.prefixesL (phases ++ [['(', 'a', 'q', ')']]) s.toList
 
+/-- one entry of the mixture: `(Substance.from_formula(key).mass, coefficient)` -/
+def massPair (kv : String × Rat) : Except MassErr (Rat × Rat) :=
+  match formulaMass kv.1 with
+  | .ok m => .ok (m, kv.2)
+  | .error e => .error e
+
 /-- `mass_fractions(stoichiometries)` with the default `substances=None, substance_factory=Substance.from_formula`
     for a dict `{formula text: coefficient}`: first every key is turned into a substance (a parser exception of the
     first bad key escapes), then `massFractions` runs on the (mass, coefficient) pairs (`none` = ZeroDivisionError).
     A composition produced by the parser never has a key past the table, so the IndexError branch of `formulaMass` is dead here.
     This is the composition of the two driver ops `formula_mass` and `mass_fractions` (the harness composes them the same way). -/
 def mixtureFractions (st : List (String × Rat)) : Except MassErr (Option (List Rat)) :=
-  match st.mapM (fun kv => match formulaMass kv.1 with
-      | .ok m => (.ok (m, kv.2) : Except MassErr (Rat × Rat))
-      | .error e => .error e) with
+  match st.mapM massPair with
   | .error e => .error e
   | .ok mv => .ok (massFractions mv)
 
